@@ -408,6 +408,7 @@ def ctor_check(pid, tier, seed, t0):
     if err:
         raise Infra("constructor harness does not build:\n" + err[-2000:])
     lines = []
+    store_lines = []
     crashed = []
     for b in sorted({binname, "ctor"}):
         p = common.run([os.path.join(common.TARGET, "debug", b)], check=False, timeout=600)
@@ -418,6 +419,7 @@ def ctor_check(pid, tier, seed, t0):
             crashed.append((b, p.returncode, begun[-1] if begun else "(before the first case)"))
         lines += [l for l in out if not l.startswith("begin ") and l.split()[0] in ("world", "batch", "macro") and
                   l.split()[-1] in ("ok", "panic") or (l.split()[0] in ("batch", "macro") and " ok " in l)]
+        store_lines += [l for l in out if l.startswith("store ")]
     lines = sorted(set(lines))
     cases = []
     for l in lines:
@@ -509,6 +511,22 @@ def ctor_check(pid, tier, seed, t0):
                 mv = model[i]
                 if (mv == 0) != (c["verdict"] == "panic") or (mv >= 2 and c["verdict"] == "ok" and c["counts"][0] != mv - 2):
                     diverged.append((i, "model says %s" % ("panic" if mv == 0 else "len %d" % (mv - 2))))
+    # "so extend never stores ragged columns": well-formed batches of zero-sized / plain / heap-owning columns
+    for l in sorted(set(store_lines)):
+        t = l.split()
+        kinds_, n_ = t[1], int(t[2])
+        cases.append({"kind": "store", "line": l})
+        if t[3] != "ok":
+            viol.append((len(cases) - 1, "extend of a well-formed batch (%s columns, %d rows) panicked" % (kinds_, n_)))
+            continue
+        a_, b_, len_, rows_, z_, h_, z2_, h2_ = [int(x) for x in t[4:12]]
+        want_z = n_ + 2 if "Z" in kinds_ else 0
+        want_h = n_ + 2 if "H" in kinds_ else 0
+        if (a_, b_, len_, rows_) != (n_, 2, n_ + 2, n_ + 2) or (z_, h_) != (want_z, want_h) or (z2_, h2_) != (0, 0) or t[12] != "false":
+            viol.append((len(cases) - 1, "a well-formed batch (columns %s: Z zero-sized with Drop, D plain, H heap-owning) of %d rows then one of 2 rows: "
+                         "extend returned %d and %d identifiers, len() %d, %d rows stored; live values of the zero-sized / heap-owning "
+                         "column %d / %d (expected %d / %d), after dropping the world %d / %d, a value dropped twice: %s"
+                         % (kinds_, n_, a_, b_, len_, rows_, z_, h_, want_z, want_h, z2_, h2_, t[12])))
     rc = 0
     if viol:
         i, msg = viol[0]
@@ -889,7 +907,46 @@ def c15_order_part(pid, seed):
     return 0, info
 
 
+def c13_probe_part(pid, seed):
+    """len() after caught panics the world-history harness cannot build (harness/src/bin/lenprobe.rs)."""
+    err = common.build_harness(["lenprobe"])
+    if err:
+        raise Infra("lenprobe does not build against /repo:\n" + err[-2000:])
+    e = common.env()
+    r = common.run([os.path.join(common.TARGET, "debug", "lenprobe")], check=False, env_=e, timeout=300)
+    lines = [l for l in r.stdout.split("\n") if " len=" in l]
+    if r.returncode != 0 or len(lines) < 3:
+        msg = "the len() probes died (exit status %s): %s" % (r.returncode, r.stdout[-300:])
+        path = write_replay(pid, seed, {"property": pid, "kind": "failing-program", "message": msg,
+                                        "how_to_replay": "build/target/debug/lenprobe  (harness/src/bin/lenprobe.rs)"})
+        print("VIOLATION property=%s replay=%s" % (pid, path))
+        print("  " + msg)
+        return 1, {"probes": len(lines)}
+    for l in lines:
+        f = dict(x.split("=") for x in l.split()[1:])
+        if f["len"] != f["stored"] or f.get("reused", "true") != "true":
+            msg = "after a caught panic (%s): len() = %s, %s entities are stored%s" % (
+                l.split()[0], f["len"], f["stored"], "" if f.get("reused", "true") == "true" else ", the freed slot is not reused")
+            path = write_replay(pid, seed, {"property": pid, "kind": "failing-program", "message": msg, "probe_output": lines,
+                                            "how_to_replay": "build/target/debug/lenprobe  (harness/src/bin/lenprobe.rs)"})
+            print("VIOLATION property=%s replay=%s" % (pid, path))
+            print("  " + msg)
+            return 1, {"probes": len(lines)}
+    return 0, {"probes": len(lines)}
+
+
 def run_check(pid, tier, seed, t0):
+    if pid == "C13":
+        rc = wh_check(pid, tier, seed, t0)
+        rc2, info = (0, {}) if rc else c13_probe_part(pid, seed)
+        ev = os.path.join(EVIDENCE, pid + ".json")
+        if os.path.exists(ev):
+            d = json.load(open(ev))
+            d.setdefault("coverage", {})["len_probes_after_caught_panics"] = info
+            if rc2:
+                d["violations"] = max(1, d.get("violations", 0))
+            json.dump(d, open(ev, "w"), indent=1)
+        return rc or rc2
     if pid == "C15":
         # the order sweep runs first: when the theorem about orders no longer checks, it is the search for a
         # concrete failing input, and its replay is the one that is kept
@@ -939,6 +996,9 @@ def run_check(pid, tier, seed, t0):
 def replay(pid, path):
     if pid == "C15" and json.load(open(path)).get("kind") == "failing-schedule-run":
         return replay_sched(pid, path)
+    if pid == "C13" and json.load(open(path)).get("kind") == "failing-program":
+        print(json.dumps(json.load(open(path)), indent=1)[:2000])
+        return c13_probe_part(pid, 1)[0]
     if pid == "C15" and json.load(open(path)).get("kind") == "failing-program":
         r = json.load(open(path))
         print(json.dumps({k: r.get(k) for k in ("message", "program", "how_to_replay")}, indent=1)[:3000])
